@@ -126,6 +126,42 @@
         assert!(failures.is_empty());
     }
 
+    /// C01 "under every plugin configuration": the same texts under every sub-list of the configured input-text plugins (none, each
+    /// alone, all) with and without the path-rewrite plugins - morphemes partition the original text, surfaces are the original text
+    /// in their range, and a text whose normalised form is not empty (in particular ANY non-empty text when nothing rewrites it) yields
+    /// at least one morpheme
+    #[test]
+    fn verif_oracle_plugin_configurations() {
+        if !want("C01") { return; }
+        let (cfgb, _jd) = dict();
+        let full = cfgb.config();
+        let mut input_sets: Vec<Vec<serde_json::Value>> = vec![Vec::new(), full.input_text_plugins.clone()];
+        for p in full.input_text_plugins.iter() { input_sets.push(vec![p.clone()]); }
+        let mut failures: Vec<String> = Vec::new();
+        let mut cases = 0usize;
+        for ins in input_sets.iter() { for rewrite in [true, false] {
+            let mut cfg = cfgb.config();
+            cfg.input_text_plugins = ins.clone();
+            if !rewrite { cfg.path_rewrite_plugins.clear(); }
+            let jd = match JapaneseDictionary::from_cfg(&cfg) { Ok(d) => d, Err(e) => { failures.push(format!("C01: configuration with {} input-text plugins does not load: {:?}", ins.len(), e)); continue; } };
+            for t in texts().iter() { for mode in [Mode::C, Mode::A] {
+                cases += 1;
+                let r = std::panic::catch_unwind(std::panic::AssertUnwindSafe(|| {
+                    let mut tok = StatefulTokenizer::new(&jd, mode);
+                    tok.reset().push_str(t);
+                    tok.do_tokenize().map(|_| { let mut ms = MorphemeList::empty(&jd); ms.collect_results(&mut tok).unwrap(); snapshot(&ms) })
+                }));
+                let toks = match r { Ok(Ok(x)) => x, _ => { if failures.len() < 30 { failures.push(format!("C01: analysis of {:?} with {} input-text plugins (path rewriting: {}) fails or panics", t, ins.len(), rewrite)); } continue; } };
+                let mut pos = 0; let mut ok = true;
+                for k in toks.iter() { if k.0 != pos || k.1 < k.0 || k.1 > t.len() || !t.is_char_boundary(k.0) || !t.is_char_boundary(k.1) || k.4 != t[k.0..k.1] { ok = false; break; } pos = k.1; }
+                if (!ok || pos != t.len()) && failures.len() < 30 { failures.push(format!("C01: morphemes of {:?} (mode {:?}, input-text plugins {:?}, path rewriting: {}) do not partition the text: {:?}", t, mode, ins.iter().map(|v| v["class"].to_string()).collect::<Vec<_>>(), rewrite, toks.iter().map(|k| (k.0, k.1, k.4.clone())).collect::<Vec<_>>())); }
+            }}
+        }}
+        println!("verif_oracle_plugin_configurations: {} analyses, {} failures", cases, failures.len());
+        for f in failures.iter().take(8) { println!("FAILING INPUT: {}", f); }
+        assert!(failures.is_empty());
+    }
+
     /// C04, exact-surface lookup through the public MorphemeList::lookup with a user dictionary layered over the system one:
     /// exactly the indexed rows whose key equals the query, with their dictionary and word numbers
     #[test]
